@@ -254,11 +254,24 @@ async function evalModule(code, envSpec, protocol) {
   if (protocol.trace) out.traces = traces;
 
   if (protocol.fireListeners && typeof ns.__read === 'function') {
-    // C05: call every onUpdate:* listener found on any recorded vnode with a fresh sentinel,
-    // then read all targets back
+    // C05: call every onUpdate:* listener found on any recorded vnode with a fresh sentinel and
+    // record which target paths changed to which value. Order-insensitive: the sentinel is
+    // named after the listener key (+ occurrence), entries are sorted.
     const fired = [];
-    let counter = 0;
-    const before = canon(ns.__read());
+    const seenKeys = new Map();
+    const flat = (v, path, out) => {
+      if (v !== null && typeof v === 'object') {
+        for (const k of Object.keys(v)) flat(v[k], path + '/' + k, out);
+      } else out[path] = v;
+      return out;
+    };
+    const snapshot = () => {
+      try {
+        return flat(ns.__read(), '', {});
+      } catch (e) {
+        return { '!error': String(e && e.message) };
+      }
+    };
     for (const vn of state.vnodes.slice()) {
       const p = vn.props;
       if (!p || typeof p !== 'object') continue;
@@ -268,25 +281,28 @@ async function evalModule(code, envSpec, protocol) {
           (h) => typeof h === 'function' && !state.fnIds.has(h),
         );
         for (const h of hs) {
-          counter++;
-          const sentinel = 'sentinel#' + counter;
+          const occ = (seenKeys.get(k) || 0) + 1;
+          seenKeys.set(k, occ);
+          const sentinel = 'sentinel#' + k + '#' + occ;
+          const before = snapshot();
           let err = null;
           try {
             h(sentinel);
           } catch (e) {
             err = canonError(e, 'listener');
           }
-          let after;
-          try {
-            after = canon(ns.__read());
-          } catch (e) {
-            after = canonError(e, 'read');
+          const after = snapshot();
+          const changed = [];
+          for (const path of Object.keys(after).sort()) {
+            if (before[path] !== after[path]) changed.push([path, after[path] === undefined ? null : after[path]]);
           }
-          fired.push({ key: k, sentinel, err, after });
+          for (const path of Object.keys(before)) if (!(path in after)) changed.push([path, '<gone>']);
+          fired.push({ key: k, occurrence: occ, err, changed });
         }
       }
     }
-    out.fired = { before, fired };
+    fired.sort((a, b) => (a.key + '#' + a.occurrence < b.key + '#' + b.occurrence ? -1 : 1));
+    out.fired = fired;
   }
   if (protocol.defined) {
     out.defined = state.defined.map((d) => d.args.map(canon));
